@@ -80,7 +80,7 @@ function* textModules(items, prefix, hostOf) {
   }
 }
 
-const CHILD_KINDS = ['text', 'textWs', 'textMulti', 'expr', 'exprStr', 'empty', 'comment', 'spread', 'spreadEmpty', 'el', 'frag', 'elWithKids', 'litNull', 'litBool', 'litNum', 'litStr', 'undef', 'tplStatic'];
+const CHILD_KINDS = ['text', 'textWs', 'textMulti', 'expr', 'exprStr', 'empty', 'comment', 'spread', 'spreadEmpty', 'el', 'frag', 'elWithKids', 'litNull', 'litBool', 'litNum', 'litStr', 'undef', 'tplStatic', 'spreadSet'];
 function makeChild(b, rng, kind, st) {
   switch (kind) {
     case 'text': return C.text(`w${st.n++}`);
@@ -98,6 +98,8 @@ function makeChild(b, rng, kind, st) {
     case 'empty': return C.empty();
     case 'comment': return C.comment();
     case 'spread': { const g = b.global({ k: 'arr', v: [{ k: 'str', v: `sp${st.n++}` }, { k: 'sent' }] }); return C.spread(b.leaf(g), g); }
+    // an iterable that is not an array: the spread child must still be copied into the child array
+    case 'spreadSet': { const g = b.global({ k: 'setOf', v: [{ k: 'str', v: `ss${st.n++}` }, { k: 'sent' }] }); return C.spread(b.leaf(g), g); }
     case 'spreadEmpty': { const g = b.global({ k: 'arr', v: [] }); return C.spread(b.leaf(g), g); }
     case 'el': return C.el({ tag: { kind: 'html', name: 'i', src: 'i' }, attrs: [A.attr('id', { k: 'str', raw: `e${st.n++}` })], children: [], selfClose: true });
     case 'frag': return C.el({ tag: { kind: 'fragShort' }, attrs: [], children: [C.text(`f${st.n++}`)] });
